@@ -503,4 +503,80 @@ def V3.interopSub {α : Type} (a : V3 α) : ((V3 α) × (V3 α)) :=
 def V4.interopSub {α : Type} (a : V4 α) : ((V4 α) × (V4 α)) :=
   (⟨a.x, a.y, a.z, a.w⟩, ⟨a.x, a.y, a.z, a.w⟩)
 
+/-- extracted from the C++ template at T = Sym; 1 path(s) -/
+def V2.narrowCtor {α : Type} {β : Type} (cast : β → α) (a : V2 β) : (V2 α) :=
+  ⟨(cast a.x), (cast a.y)⟩
+
+/-- extracted from the C++ template at T = Sym; 1 path(s) -/
+def V2.narrowSetValueV {α : Type} {β : Type} (cast : β → α) (a : V2 α) (b : V2 β) : (V2 α) :=
+  ⟨(cast b.x), (cast b.y)⟩
+
+/-- extracted from the C++ template at T = Sym; 1 path(s) -/
+def V2.narrowGetValueV {α : Type} {β : Type} (cast : β → α) (a : V2 β) (b : V2 α) : (V2 α) :=
+  ⟨(cast a.x), (cast a.y)⟩
+
+/-- extracted from the C++ template at T = Sym; 1 path(s) -/
+def V3.narrowCtor {α : Type} {β : Type} (cast : β → α) (a : V3 β) : (V3 α) :=
+  ⟨(cast a.x), (cast a.y), (cast a.z)⟩
+
+/-- extracted from the C++ template at T = Sym; 1 path(s) -/
+def V3.narrowSetValueV {α : Type} {β : Type} (cast : β → α) (a : V3 α) (b : V3 β) : (V3 α) :=
+  ⟨(cast b.x), (cast b.y), (cast b.z)⟩
+
+/-- extracted from the C++ template at T = Sym; 1 path(s) -/
+def V3.narrowGetValueV {α : Type} {β : Type} (cast : β → α) (a : V3 β) (b : V3 α) : (V3 α) :=
+  ⟨(cast a.x), (cast a.y), (cast a.z)⟩
+
+/-- extracted from the C++ template at T = Sym; 1 path(s) -/
+def V4.narrowCtor {α : Type} {β : Type} (cast : β → α) (a : V4 β) : (V4 α) :=
+  ⟨(cast a.x), (cast a.y), (cast a.z), (cast a.w)⟩
+
+/-- extracted from the C++ template at T = Sym; 1 path(s) -/
+def V4.narrowSetValueV {α : Type} {β : Type} (cast : β → α) (a : V4 α) (b : V4 β) : (V4 α) :=
+  ⟨(cast b.x), (cast b.y), (cast b.z), (cast b.w)⟩
+
+/-- extracted from the C++ template at T = Sym; 1 path(s) -/
+def V4.narrowGetValueV {α : Type} {β : Type} (cast : β → α) (a : V4 β) (b : V4 α) : (V4 α) :=
+  ⟨(cast a.x), (cast a.y), (cast a.z), (cast a.w)⟩
+
+/-- extracted from the C++ template at T = Sym; 1 path(s) -/
+def V2.narrowSetValueS {α : Type} {β : Type} (cast : β → α) (a : V2 α) (b : V2 β) : (V2 α) :=
+  ⟨(cast b.x), (cast b.y)⟩
+
+/-- extracted from the C++ template at T = Sym; 1 path(s) -/
+def V3.narrowSetValueS {α : Type} {β : Type} (cast : β → α) (a : V3 α) (b : V3 β) : (V3 α) :=
+  ⟨(cast b.x), (cast b.y), (cast b.z)⟩
+
+/-- extracted from the C++ template at T = Sym; 1 path(s) -/
+def V4.narrowSetValueS {α : Type} {β : Type} (cast : β → α) (a : V4 α) (b : V4 β) : (V4 α) :=
+  ⟨(cast b.x), (cast b.y), (cast b.z), (cast b.w)⟩
+
+/-- extracted from the C++ template at T = Sym; 1 path(s) -/
+def V2.narrowGetValueS {α : Type} {β : Type} (cast : β → α) (a : V2 β) (b : V2 α) : (V2 α) :=
+  ⟨(cast a.x), (cast a.y)⟩
+
+/-- extracted from the C++ template at T = Sym; 1 path(s) -/
+def V3.narrowGetValueS {α : Type} {β : Type} (cast : β → α) (a : V3 β) (b : V3 α) : (V3 α) :=
+  ⟨(cast a.x), (cast a.y), (cast a.z)⟩
+
+/-- extracted from the C++ template at T = Sym; 1 path(s) -/
+def V4.narrowGetValueS {α : Type} {β : Type} (cast : β → α) (a : V4 β) (b : V4 α) : (V4 α) :=
+  ⟨(cast a.x), (cast a.y), (cast a.z), (cast a.w)⟩
+
+/-- extracted from the C++ template at T = Sym; 1 path(s) -/
+def V4.narrowFromV3 {α : Type} {β : Type} [OfNat α 1] (cast : β → α) (a : V3 β) : (V4 α) :=
+  ⟨(cast a.x), (cast a.y), (cast a.z), (1 : α)⟩
+
+/-- extracted from the C++ template at T = Sym; 1 path(s) -/
+def V2.interopArr {α : Type} (a : V2 α) : ((V2 α) × (V2 α)) :=
+  (⟨a.x, a.y⟩, ⟨a.x, a.y⟩)
+
+/-- extracted from the C++ template at T = Sym; 1 path(s) -/
+def V3.interopArr {α : Type} (a : V3 α) : ((V3 α) × (V3 α)) :=
+  (⟨a.x, a.y, a.z⟩, ⟨a.x, a.y, a.z⟩)
+
+/-- extracted from the C++ template at T = Sym; 1 path(s) -/
+def V4.interopArr {α : Type} (a : V4 α) : ((V4 α) × (V4 α)) :=
+  (⟨a.x, a.y, a.z, a.w⟩, ⟨a.x, a.y, a.z, a.w⟩)
+
 end ImathVerif.Gen
